@@ -275,3 +275,6 @@ HARNESSES = [
             covers=["result-set"] + ["eager-" + c for c in CALLS]),
 ]
 ASSUMPTIONS = ["scripts are discrete: enumerated by the solver; the retry counters are symbolic integers"]
+
+from engine.harness import borrowed  # noqa: E402
+HARNESSES.append(borrowed("c02", "H02-worker", "H16-worker-eager"))   # "the rest of the actor body does not run" after an answer given in a dependency
